@@ -380,7 +380,43 @@ func init() {
 				for j := 0; j < n; j++ {
 					ops = append(ops, histOp(g, lines, ops))
 				}
-				emit(encodeStorage(ls) + "\t" + encodeReqs(ops))
+				emit(encodeStorage(ls) + "\t" + encodeReqs(ops) + "\t" + b01(i%2 == 1))
+			}
+			// file-backed lists of several read blocks (4096 bytes): a query materialises the rule at offset p (the list
+			// reads the block starting there), the next one needs the rule whose line straddles the end of that block, of
+			// the block before, or starts exactly at a block boundary — whatever a list keeps from one read to the next
+			// is invisible
+			for i := 0; i < cases/4+1; i++ {
+				var sb strings.Builder
+				var offs []int
+				nl := 240 + g.Intn(60)
+				for k := 0; k < nl; k++ {
+					offs = append(offs, sb.Len())
+					fmt.Fprintf(&sb, "||h%03d.straddle.example^$%s\n", k, Pick(g, []string{"dnstype=A,client=Mom,important", "dnstype=A", "important,dnstype=~AAAA|~MX,ctag=device_pc", "client=Mom", "dnstype=A,denyallow=x.example.org|y.example.org"}))
+				}
+				lineAt := func(off int) int {
+					j := 0
+					for j+1 < nl && offs[j+1] <= off {
+						j++
+					}
+					return j
+				}
+				var ops []Req
+				for r := 0; r < 14; r++ {
+					a := g.Intn(nl)
+					for _, j := range []int{a, lineAt(offs[a] + 4096), lineAt(offs[a]+4096) - 1, lineAt(offs[a] + 4095 + g.Intn(3))} {
+						if j < 0 || j >= nl {
+							continue
+						}
+						name := fmt.Sprintf("h%03d.straddle.example", j)
+						if g.Bool() {
+							ops = append(ops, Req{Kind: "dns", Hostname: name, DNSType: 1, ClientName: "Mom", Tags: []string{"device_pc"}})
+						} else {
+							ops = append(ops, Req{Kind: "dns", Hostname: name, DNSType: 28})
+						}
+					}
+				}
+				emit(encodeStorage([]listSpec{{id: 1 + i, content: sb.String()}}) + "\t" + encodeReqs(ops) + "\t1")
 			}
 		},
 		Run: func(line string, st *Stats) (string, string, bool) {
@@ -417,7 +453,11 @@ func init() {
 			}
 			ls := decodeStorage(f[0])
 			ops := decodeReqs(f[1])
-			h := newHistEngines(ls, false)
+			fileBacked := len(f) > 2 && f[2] == "1"
+			if fileBacked {
+				st.Inc("file_backed")
+			}
+			h := newHistEngines(ls, fileBacked)
 			defer h.cleanup()
 			var out []string
 			var results []*histResult
@@ -433,7 +473,7 @@ func init() {
 					hits++
 				}
 				// the property's own oracle: the same query on fresh engines
-				fresh := newHistEngines(ls, false)
+				fresh := newHistEngines(ls, fileBacked)
 				fobs, fr, _ := fresh.runOp(rq)
 				fresh.cleanup()
 				if (fobs != obs || fr.count() != r.count()) && flags == "" {
@@ -455,7 +495,7 @@ func init() {
 			for _, rq := range ops {
 				st.Inc("kind_" + rq.Kind)
 			}
-			return strings.Join(out, "|") + flags, line + "\t" + pslForHosts(histHosts(ops, qs)), hits > 0
+			return strings.Join(out, "|") + flags, f[0] + "\t" + f[1] + "\t" + pslForHosts(histHosts(ops, qs)), hits > 0
 		},
 	})
 
@@ -516,8 +556,22 @@ func init() {
 			flags := ""
 			closed := false
 			served := 0
+			// in every other case the cache lock is BUSY at each insert before the fault (held in read mode on behalf of
+			// another goroutine from the cache miss on, released 150 microseconds later): what a query returned must
+			// still have been materialised, so that it is served after the fault
+			if len(line)%2 == 0 {
+				mon := newC14Monitor(false)
+				mon.contend = true
+				filterlist.VerifSetHook(mon.handle)
+				defer func() {
+					filterlist.VerifSetHook(nil)
+					time.Sleep(time.Millisecond)
+				}()
+				st.Inc("histories_with_busy_cache_lock")
+			}
 			for k, rq := range ops {
 				if rq.Kind == "close" {
+					filterlist.VerifSetHook(nil)
 					if rq.URL == "fd" {
 						// the file handle is replaced by a closed descriptor
 						for _, fl := range h.files {
